@@ -160,7 +160,7 @@ def run(ctx):
                 "whole sequence compared with the Lean search model run on the engine's own matrix; implementation "
                 "calls run in a worker sub-process; non-trivial = both lengths >= 3")
     rng = ctx.rng
-    n = 700 if ctx.thorough else 130
+    n = 3000 if ctx.thorough else 130
     cases = [gen_case(rng, ctx.thorough) for _ in range(n)]
     w = impl.run_worker("affinity_eval", [[[c], {}] for c in cases], timeout=1800)
     if w["crashed"]:
